@@ -1,12 +1,192 @@
 import Driver.Tok
-/- line-protocol handlers of this area; see docs/AGENT_GUIDE.md -/
+import BpModel.Plugin
+/- line-protocol handlers of the Plugin area (C03); see docs/C03-notes.md for the grammar
+
+   PLG <nfiles> FILE*  NAMES <ncls> (flat py)* <nfld> (name py)* <nmem> (member enumflat py)*
+     FILE  := FILE <package|-> <nenums> ENUM* <nmsgs> MSG*
+     ENUM  := E <name> <nvals> (<vname> <vnum>)*
+     MSG   := M <name> <mapEntry 0|1> <noneofs> <oname>* <nfields> FIELD* <nenums> ENUM* <nnested> MSG*
+     FIELD := F <name> <number> <label 1|2|3> <type> <typeName|-> <oneofIndex|-> <proto3Optional 0|1>
+   reply: ERR | <nclasses> CLASS*
+     CLASS := K <pyName> <full> <valid> <mapRefsLocal> <noWrapperMapValue> <nfields> (f <pyName> <meta|ERR> <observed spec|ERR> <schema spec|NONE>)*
+            | N <pyName> <n> (<member> <number>)*
+-/
 namespace Drv
+open Bp Bp.Plugin
 
 structure PluginSt where
   dummy : Unit := ()
 
-def handlePlugin (st : PluginSt) (_toks : List String) : Option (PluginSt × String) :=
-  let _ := st
-  none
+def nameOf (s : String) : Name := if s == "-" then [] else s.toList
+def showName (n : Name) : String := if n.isEmpty then "-" else String.ofList n
+
+
+def pField : List String → Option (FieldP × List String)
+  | "F" :: name :: num :: lab :: ty :: tn :: oi :: p3 :: r => do
+    let num ← parseNat num
+    let ty ← parseNat ty
+    let lab ← (match lab with | "1" => some Label.optional | "2" => some .required | "3" => some .repeated | _ => none)
+    let oi ← optNat oi
+    some ({ name := nameOf name, number := num, label := lab, type := ty, typeName := nameOf tn,
+            oneofIndex := oi, proto3Optional := p3 == "1" }, r)
+  | _ => none
+
+partial def pMany {α} (p : List String → Option (α × List String)) (n : Nat) (toks : List String) (acc : List α) :
+    Option (List α × List String) :=
+  if n == 0 then some (acc.reverse, toks) else
+  match p toks with
+  | some (a, r) => pMany p (n - 1) r (a :: acc)
+  | none => none
+
+def pCounted {α} (p : List String → Option (α × List String)) : List String → Option (List α × List String)
+  | n :: r => do
+    let n ← parseNat n
+    pMany p n r []
+  | [] => none
+
+def pNameTok : List String → Option (Name × List String)
+  | s :: r => some (nameOf s, r)
+  | [] => none
+
+def pVal : List String → Option ((Name × Int) × List String)
+  | n :: v :: r => do
+    let v ← parseInt v
+    some ((nameOf n, v), r)
+  | _ => none
+
+def pEnum : List String → Option (EnumP × List String)
+  | "E" :: name :: r => do
+    let (vs, r) ← pCounted pVal r
+    some ({ name := nameOf name, values := vs }, r)
+  | _ => none
+
+partial def pMsg : List String → Option (MsgP × List String)
+  | "M" :: name :: me :: r => do
+    let (os, r) ← pCounted pNameTok r
+    let (fs, r) ← pCounted pField r
+    let (es, r) ← pCounted pEnum r
+    let (ns, r) ← pCounted pMsg r
+    some (.mk (nameOf name) fs ns es os (me == "1"), r)
+  | _ => none
+
+def pFile : List String → Option (FileP × List String)
+  | "FILE" :: pkg :: r => do
+    let (es, r) ← pCounted pEnum r
+    let (ms, r) ← pCounted pMsg r
+    some ({ package := nameOf pkg, messages := ms, enums := es }, r)
+  | _ => none
+
+def pPair : List String → Option ((Name × Name) × List String)
+  | a :: b :: r => some ((nameOf a, nameOf b), r)
+  | _ => none
+
+def pTriple : List String → Option ((Name × Name) × List String)
+  | a :: e :: b :: r => some ((nameOf a ++ '|' :: nameOf e, nameOf b), r)
+  | _ => none
+
+def mkNaming (cls fld mem : List (Name × Name)) : Naming :=
+  { cls := fun n => (lookup? n cls).getD n,
+    fld := fun n => (lookup? n fld).getD n,
+    mem := fun n e => (lookup? (n ++ '|' :: e) mem).getD n }
+
+def showPyT : PyT → String
+  | .prim n => "p." ++ showName n
+  | .optPrim n => "o." ++ showName n
+  | .datetime => "dt"
+  | .timedelta => "td"
+  | .ref t => "r" ++ showName t
+
+def showElem : Elem → String
+  | .scalar n => "p." ++ showName n
+  | .unwrapped n => "o." ++ showName n
+  | .timestamp => "dt"
+  | .duration => "td"
+  | .ref t => "r" ++ showName t
+
+def showCard : Card → String
+  | .singular => "singular"
+  | .optional => "optional"
+  | .repeated => "repeated"
+  | .map k v => s!"map:{Gen.typeName k}:{Gen.typeName v}"
+
+def showOptT : Option PType → String
+  | none => "-"
+  | some t => Gen.typeName t
+
+def showSpec (s : FieldSpec) : String :=
+  s!"{s.number},{Gen.typeName s.ty},{showCard s.card},{showName (s.group.getD [])},{showOptT s.wraps},{showElem s.elem},{showName (s.keyPy.getD [])}"
+
+def b01 (b : Bool) : String := if b then "1" else "0"
+
+/-- the hint as `typing` shows it after evaluation: `Optional[Optional[X]]` = `Optional[X]` -/
+def showAnn : Ann → String
+  | .plain t => inner t
+  | .list t => s!"List[{inner t}]"
+  | .optional (.optPrim n) => s!"Optional[{showName n}]"
+  | .optional t => s!"Optional[{inner t}]"
+  | .dict k v => s!"Dict[{inner k},{inner v}]"
+where inner : PyT → String
+  | .prim n => showName n
+  | .optPrim n => s!"Optional[{showName n}]"
+  | .datetime => "datetime"
+  | .timedelta => "timedelta"
+  | .ref t => showName t
+
+def showMeta (m : Meta) : String :=
+  let mt := match m.mapTypes with | some (k, v) => s!"{Gen.typeName k}:{Gen.typeName v}" | none => "-"
+  s!"{m.number},{Gen.typeName m.protoType},{mt},{showName (m.group.getD [])},{showOptT m.wraps},{b01 m.optional},{showAnn m.hint}"
+
+/-- the messages of a file in traversal order with their full names (`.pkg.Outer.Inner`) -/
+partial def fullNames (pre : Name) : List MsgP → List (Name × MsgP)
+  | [] => []
+  | m :: ms => (pre ++ '.' :: m.name, m) :: (fullNames (pre ++ '.' :: m.name) m.nested ++ fullNames pre ms)
+
+def showClass (_nm : Naming) (fulls : List (Name × MsgP)) (idx : Nat) : Class → String
+  | .enum n es => s!"N {showName n} {es.length}" ++ String.join (es.map fun (a, v) => s!" {showName a} {v}")
+  | .message n cs =>
+    match fulls[idx]? with
+    | none => "K ?"
+    | some (full, m) =>
+      let fl := (m.fields.zip cs).map fun (f, c) =>
+        let mta := match readBack c with | some mt => showMeta mt | none => "ERR"
+        let obs := match readBack c with | some mt => showSpec (observe mt) | none => "ERR"
+        let sp := match specOf full m f with | some s => showSpec s | none => "NONE"
+        s!" f {showName c.pyName} {mta} {obs} {sp}"
+      s!"K {showName n} {showName full} {b01 (validMsg full m)} {b01 (mapRefsLocal full m)} {b01 (noWrapperMapValue m)} {cs.length}"
+        ++ String.join fl
+
+def handlePlugin (st : PluginSt) : List String → Option (PluginSt × String)
+  | "PLG" :: r => do
+    let (files, r) ← pCounted pFile r
+    match r with
+    | "NAMES" :: r =>
+      let (cls, r) ← pCounted pPair r
+      let (fld, r) ← pCounted pPair r
+      let (mem, _) ← pCounted pTriple r
+      let nm := mkNaming cls fld mem
+      match compilePackage nm files with
+      | none => some (st, "ERR")
+      | some classes =>
+        -- full names of the non-map-entry messages, in the order the message classes appear
+        let fulls := (files.map fun fl =>
+          (fullNames (if fl.package.isEmpty then [] else '.' :: fl.package) fl.messages).filter (fun p => !p.2.mapEntry)).flatten
+        let rec go (cs : List Class) (i : Nat) (acc : List String) : List String :=
+          match cs with
+          | [] => acc.reverse
+          | c :: rest =>
+            match c with
+            | .message _ _ => go rest (i + 1) (showClass nm fulls i c :: acc)
+            | .enum _ _ => go rest i (showClass nm fulls i c :: acc)
+        let guard := files.all (noFlattenCollision nm)
+        some (st, s!"{classes.length} {b01 guard} " ++ " ".intercalate (go classes 0 []))
+    | _ => none
+  | ["LEGACYMAP", fname, tn, n1, n2] =>
+    -- the pre-fix `is_map` on a field `fname` of type `tn` in a message with map entries n1, n2
+    let f : FieldP := { name := nameOf fname, number := 1, label := .repeated, type := typeMessage, typeName := nameOf tn }
+    let m : MsgP := .mk [] [f] [.mk (nameOf n1) [] [] [] [] true, .mk (nameOf n2) [] [] [] [] true] [] [] false
+    some (st, s!"{b01 (Legacy.isMap f m)} {showName ((Legacy.mapEntry f m).map MsgP.name |>.getD [])} {showName ((getMapEntry f m).map MsgP.name |>.getD [])}")
+  | ["WRAPS", tn] =>
+    some (st, s!"{showName ((wrapsOf (nameOf tn)).getD [])} {showName ((Legacy.wrapsOf (nameOf tn)).getD [])}")
+  | _ => none
 
 end Drv
